@@ -56,7 +56,11 @@ func name(t *rapid.T) string {
 	n := rapid.StringMatching(`[a-zA-Z_][a-zA-Z0-9_.-]{0,5}`).Draw(t, "name")
 	if rapid.IntRange(0, 5).Draw(t, "nonascii") == 0 {
 		// names may start with and contain letters beyond ASCII
-		n = rapid.SampledFrom([]string{"é", "élément", "文書", "Ωmega", "ñ", "a·b", "Ä1"}).Draw(t, "nonasciiname") + rapid.StringMatching(`[a-z0-9_.-]{0,3}`).Draw(t, "nametail")
+		// (also letters whose last byte is 0x85 or 0xA0, the Latin-1 code points of NEL and the no-break space, at the end)
+		n = rapid.SampledFrom([]string{"é", "élément", "文書", "Ωmega", "ñ", "a·b", "Ä1", "voilà", "Å", "ską", "хР", "Р", "aà", "xÅ", "ĀŅ"}).Draw(t, "nonasciiname") + rapid.StringMatching(`[a-z0-9_.-]{0,3}`).Draw(t, "nametail")
+		if rapid.Bool().Draw(t, "nonasciilast") {
+			n += rapid.SampledFrom([]string{"à", "Å", "ą", "Р", "х", "Š", "é"}).Draw(t, "lastletter")
+		}
 	}
 	if rapid.IntRange(0, 4).Draw(t, "ns") == 0 {
 		n = rapid.StringMatching(`[a-z]{1,3}`).Draw(t, "prefix") + ":" + n
@@ -219,6 +223,10 @@ func (g *docgen) pi(decl bool) {
 	if !decl {
 		for {
 			target = name(t)
+			if rapid.IntRange(0, 4).Draw(t, "xmlprefixed") == 0 {
+				// a target that begins with xml is an ordinary target (only "xml" itself is the declaration)
+				target = rapid.SampledFrom([]string{"xml-stylesheet", "xml-model", "xmlfoo", "xmlx", "XML-x", "xml_"}).Draw(t, "xmltarget")
+			}
 			if !strings.EqualFold(target, "xml") && !strings.Contains(target, ":") {
 				break
 			}
@@ -255,6 +263,10 @@ func (g *docgen) pi(decl bool) {
 		// a quoted pseudo-attribute value that is still open at ?>: the instruction ends there all the same
 		q := rapid.SampledFrom([]string{`"`, `'`}).Draw(t, "piq")
 		n, v := name(t), rapid.SampledFrom([]string{"", "x", "a>b", "<c d=", "/>"}).Draw(t, "piopenval")
+		if rapid.IntRange(0, 3).Draw(t, "pilongval") == 0 {
+			// a long value (a scanner may treat values beyond some hundred bytes on a path of its own)
+			v = strings.Repeat("v ", rapid.SampledFrom([]int{100, 127, 128, 129, 200, 2048}).Draw(t, "pilonglen")) + v
+		}
 		g.toks = append(g.toks, tok{xml.AttributeToken, " " + n + "=" + q + v, n, q + v})
 		g.classes["pi-open-quote"] = true
 	}
